@@ -24,6 +24,19 @@ from nix_manipulator.expressions.trivia import (
 MAX_INLINE_LIST_WIDTH = 100
 
 
+def _coerce_list_item(item: Any) -> NixExpression:
+    """Coerce a list element, parenthesizing negative numbers (`[ -1 ]` is not valid Nix)."""
+    if isinstance(item, NixExpression):
+        return item
+    expr = coerce_expression(item)
+    if isinstance(item, (int, float)) and not isinstance(item, bool):
+        if expr.rebuild(inline=True).startswith("-"):
+            from nix_manipulator.expressions.parenthesis import Parenthesis
+
+            return Parenthesis(value=expr)
+    return expr
+
+
 def process_list(node: Node):
     """Parse a list node into values and inner trivia."""
     from nix_manipulator.mapping import tree_sitter_node_to_expression
@@ -120,7 +133,7 @@ class NixList(TypedExpression):
             return True
 
         for item in self.value:
-            expr = coerce_expression(item)
+            expr = _coerce_list_item(item)
             if self._item_requires_multiline(expr):
                 return True
 
@@ -134,7 +147,7 @@ class NixList(TypedExpression):
         if not self.value:
             return "[ ]"
         items = [
-            coerce_expression(item).rebuild(indent=indent, inline=True)
+            _coerce_list_item(item).rebuild(indent=indent, inline=True)
             for item in self.value
         ]
         return f"[ {' '.join(items)} ]"
@@ -189,7 +202,7 @@ class NixList(TypedExpression):
 
         def render_item(item: NixExpression | str | int | bool | float | None) -> str:
             """Render list items consistently based on multiline decision."""
-            expr = coerce_expression(item)
+            expr = _coerce_list_item(item)
             return expr.rebuild(indent=indented, inline=not multiline)
 
         items = [render_item(item) for item in self.value]
